@@ -686,3 +686,144 @@ Proof.
     apply match_repeat; [exact Hk|].
     apply (tuple_arg_members (sbase s) (OTuple es) es Ht (member_s_base _ s Hm) eq_refl).
 Qed.
+
+(* ------------------------------------------------------------------ *)
+(* assert-style constraints: is_instance, is_value, add_annotation *)
+
+Lemma non_numeric_nominal : forall K t, numeric_cls K = false -> sub_art K t = true -> sub K t = true.
+Proof. intros K t; destruct K, t; vm_compute; intros H1 H2; try discriminate; reflexivity. Qed.
+
+Lemma nominal_comparable : forall K t c,
+  diamond_cls K = false -> sub K t = true -> sub K c = true -> sub t c || sub c t = true.
+Proof.
+  assert (H : forallb (fun K => forallb (fun t => forallb (fun c =>
+              implb (negb (diamond_cls K) && sub K t && sub K c) (sub t c || sub c t)) all_cls) all_cls) all_cls = true)
+    by (vm_compute; reflexivity).
+  intros K t c Hd H1 H2.
+  pose proof (forallb_all_cls _ (forallb_all_cls _ (forallb_all_cls _ H K) t) c) as Hi. simpl in Hi.
+  rewrite Hd, H1, H2 in Hi. exact Hi.
+Qed.
+
+Lemma meta_sub_type : forall t c, sub CType c = true -> sub (meta t) c = true.
+Proof. intros t c; destruct t, c; vm_compute; intros H; try discriminate; reflexivity. Qed.
+
+Lemma meta_mono_sub : forall k t, sub_art k t = true -> sub (meta k) (meta t) = true.
+Proof. intros k t; destruct k, t; vm_compute; intros H; try discriminate; reflexivity. Qed.
+
+Lemma member_nominal_cls : forall o b,
+  member_b o b = true -> (forall l, b <> VKnown l) -> (forall t, b <> VSub t) -> b <> VAny ->
+  sub_art (class_of o) (nominal_cls b) = true.
+Proof.
+  intros o b Hm H1 H2 H3. pose proof (deliteral_member o b Hm) as D.
+  destruct b as [|l|c|c|ms|g]; simpl in *.
+  - exfalso. apply H3. reflexivity.
+  - exfalso. apply (H1 l). reflexivity.
+  - exact Hm.
+  - exfalso. apply (H2 c). reflexivity.
+  - destruct o; try discriminate. reflexivity.
+  - destruct g; simpl in *; try exact D; try (apply andb_true_iff in Hm; tauto);
+      destruct o; try discriminate; reflexivity.
+Qed.
+
+Lemma diamond_of : forall o, multiple_inheritance o = false -> diamond_cls (class_of o) = false.
+Proof. intros o H. destruct o; simpl in *; try exact H. apply diamond_meta. Qed.
+
+Definition assert_ok (o : obj) : Prop :=
+  wf_obj o = true /\ multiple_inheritance o = false /\ numeric_like o = false /\ enum_class_object o = false.
+
+Lemma numeric_like_cls : forall o, numeric_like o = false ->
+  (forall k, o <> OClass k) -> numeric_cls (class_of o) = false.
+Proof. intros o H Hn. destruct o; simpl in *; try exact H. exfalso. apply (Hn c). reflexivity. Qed.
+
+Lemma class_object_not_numeric : forall k, numeric_cls (meta k) = false.
+Proof. destruct k; reflexivity. Qed.
+
+Lemma isinstance_pos_sound : forall c,
+  ksound (KIsInstance c true) (fun o => isinst o c = true /\ assert_ok o).
+Proof.
+  intros c s o Hm [Hi [Hw [Hd [Hn He]]]]. cbn [apply_constr]. unfold apply_isinstance.
+  pose proof (member_s_base o s Hm) as Hb.
+  assert (HnK : numeric_cls (class_of o) = false).
+  { destruct o; simpl in *; try exact Hn. apply class_object_not_numeric. }
+  destruct (sbase s) as [|l|t|t|ms|g] eqn:Eb.
+  - rewrite member_single, member_s_plain. simpl. apply sub_sub_art. exact Hi.
+  - simpl in Hb. apply obj_eqb_eq in Hb. subst l. rewrite Hi. cbn [Bool.eqb]. rewrite member_single. exact Hm.
+  - simpl in Hb. pose proof (non_numeric_nominal _ _ HnK Hb) as Hs.
+    pose proof (nominal_comparable _ _ _ (diamond_of o Hd) Hs Hi) as Hc. cbn [nominal_cls].
+    destruct (sub t c); [rewrite member_single; exact Hm|]. simpl in Hc. rewrite Hc.
+    rewrite member_single, member_s_plain. simpl. apply sub_sub_art. exact Hi.
+  - simpl in Hb. destruct o; try discriminate. simpl in He. unfold isinst in *. simpl in *.
+    unfold meta in Hi at 1. rewrite He in Hi. rewrite (meta_sub_type t c Hi). cbn [Bool.eqb].
+    rewrite member_single. exact Hm.
+  - assert (Hk : sub_art (class_of o) CTuple = true) by (simpl in Hb; destruct o; try discriminate; reflexivity).
+    pose proof (non_numeric_nominal _ _ HnK Hk) as Hs.
+    pose proof (nominal_comparable _ _ _ (diamond_of o Hd) Hs Hi) as Hc. cbn [nominal_cls].
+    destruct (sub CTuple c); [rewrite member_single; exact Hm|]. simpl in Hc. rewrite Hc.
+    rewrite member_single, member_s_plain. simpl. apply sub_sub_art. exact Hi.
+  - assert (Hk : sub_art (class_of o) (gen_cls g) = true).
+    { apply (member_nominal_cls o (VGen g) Hb); intros; discriminate. }
+    pose proof (non_numeric_nominal _ _ HnK Hk) as Hs.
+    pose proof (nominal_comparable _ _ _ (diamond_of o Hd) Hs Hi) as Hc. cbn [nominal_cls].
+    destruct (sub (gen_cls g) c); [rewrite member_single; exact Hm|]. simpl in Hc. rewrite Hc.
+    rewrite member_single, member_s_plain. simpl. apply sub_sub_art. exact Hi.
+Qed.
+
+Lemma isinstance_neg_sound : forall c,
+  ksound (KIsInstance c false) (fun o => isinst o c = false /\ assert_ok o).
+Proof.
+  intros c s o Hm [Hi [Hw [Hd [Hn He]]]]. cbn [apply_constr]. unfold apply_isinstance.
+  pose proof (member_s_base o s Hm) as Hb.
+  assert (HnK : numeric_cls (class_of o) = false).
+  { destruct o; simpl in *; try exact Hn. apply class_object_not_numeric. }
+  assert (Hgen : forall t, sub_art (class_of o) t = true -> sub t c = false).
+  { intros t Ht. destruct (sub t c) eqn:E; [|reflexivity].
+    pose proof (sub_trans _ _ _ (non_numeric_nominal _ _ HnK Ht) E) as Hx. unfold isinst in Hi. congruence. }
+  destruct (sbase s) as [|l|t|t|ms|g] eqn:Eb.
+  - rewrite member_single, member_s_plain. reflexivity.
+  - simpl in Hb. apply obj_eqb_eq in Hb. subst l. rewrite Hi. cbn [Bool.eqb]. rewrite member_single. exact Hm.
+  - simpl in Hb. cbn [nominal_cls]. rewrite (Hgen t Hb). rewrite member_single. exact Hm.
+  - simpl in Hb. destruct o; try discriminate. unfold isinst in *. simpl in *.
+    destruct (sub (meta t) c) eqn:E; [|cbn [Bool.eqb]; rewrite member_single; exact Hm].
+    pose proof (sub_trans _ _ _ (meta_mono_sub _ _ Hb) E). congruence.
+  - assert (Hk : sub_art (class_of o) CTuple = true) by (simpl in Hb; destruct o; try discriminate; reflexivity).
+    cbn [nominal_cls]. rewrite (Hgen _ Hk). rewrite member_single. exact Hm.
+  - assert (Hk : sub_art (class_of o) (gen_cls g) = true).
+    { apply (member_nominal_cls o (VGen g) Hb); intros; discriminate. }
+    cbn [nominal_cls]. rewrite (Hgen _ Hk). rewrite member_single. exact Hm.
+Qed.
+
+Lemma isvalue_pos_sound : forall l,
+  ksound (KIsValue l true) (fun o => o = l /\ assert_ok o).
+Proof.
+  intros l s o Hm [-> [Hw [Hd [Hn He]]]]. cbn [apply_constr]. unfold apply_isvalue.
+  pose proof (member_s_base l s Hm) as Hb.
+  assert (Hk : member l [plain (VKnown l)] = true).
+  { rewrite member_single, member_s_plain. simpl. apply obj_eqb_refl. }
+  assert (HnK : numeric_cls (class_of l) = false).
+  { destruct l; simpl in *; try exact Hn. apply class_object_not_numeric. }
+  destruct (sbase s) as [|l'|t|t|ms|g] eqn:Eb.
+  - exact Hk.
+  - simpl in Hb. apply obj_eqb_eq in Hb. subst l'. rewrite obj_eqb_refl. rewrite member_single. exact Hm.
+  - simpl in Hb. cbn [nominal_cls]. unfold isinst. rewrite (non_numeric_nominal _ _ HnK Hb). exact Hk.
+  - simpl in Hb. destruct l; try discriminate. simpl in Hn. rewrite (non_numeric_nominal _ _ Hn Hb). exact Hk.
+  - assert (Hc : sub_art (class_of l) CTuple = true) by (simpl in Hb; destruct l; try discriminate; reflexivity).
+    cbn [nominal_cls]. unfold isinst. rewrite (non_numeric_nominal _ _ HnK Hc). exact Hk.
+  - assert (Hc : sub_art (class_of l) (gen_cls g) = true).
+    { apply (member_nominal_cls l (VGen g) Hb); intros; discriminate. }
+    cbn [nominal_cls]. unfold isinst. rewrite (non_numeric_nominal _ _ HnK Hc). exact Hk.
+Qed.
+
+Lemma isvalue_neg_sound : forall l,
+  ksound (KIsValue l false) (fun o => obj_eqb o l = false).
+Proof.
+  intros l s o Hm Hne. cbn [apply_constr]. unfold apply_isvalue. cbn [negb].
+  pose proof (member_s_base o s Hm) as Hb.
+  destruct (sbase s) as [|l'|t|t|ms|g] eqn:Eb; try (rewrite member_single; exact Hm).
+  simpl in Hb. apply obj_eqb_eq in Hb. subst l'. rewrite Hne. rewrite member_single. exact Hm.
+Qed.
+
+Lemma addannot_sound : forall n p P, ksound (KAddAnnot n p) P.
+Proof.
+  intros n p P s o Hm _. cbn [apply_constr]. destruct p; rewrite member_single; [|exact Hm].
+  apply member_annotate; [exact Hm|reflexivity].
+Qed.
